@@ -118,6 +118,10 @@ func buildVariant(x *explore.X) *variant {
 		g.Types["O"].Fields = append(g.Types["O"].Fields, &gen.FieldDef{Name: "aFirst", Type: gen.Named("String"), Deprecated: "sorts first"})
 		v.desc = append(v.desc, "O.aFirst deprecated (sorts first)")
 	}
+	if x.Flip("deprecated interface field") {
+		g.Types["J"].Field("y").Deprecated = "interface field going away"
+		v.desc = append(v.desc, "J.y deprecated")
+	}
 	if x.Flip("deprecated enum value") {
 		g.Types["E"].Values[1].Deprecated = "no B"
 		v.desc = append(v.desc, "E.B deprecated")
@@ -128,7 +132,11 @@ func buildVariant(x *explore.X) *variant {
 		v.desc = append(v.desc, "Query.w deep wrappers")
 	}
 	// types appended after construction: X implements I (and refers to a new enum), Y implements I & J
-	switch x.Dev(5, "append") {
+	switch x.Dev(7, "append") {
+	case 5:
+		v.appended = []string{"UZ"} // a union whose member is a new implementer of J
+	case 6:
+		v.appended = []string{"W"} // a plain object whose field type is a new implementer of I
 	case 1:
 		v.appended = []string{"X"}
 	case 2:
@@ -148,6 +156,12 @@ func buildVariant(x *explore.X) *variant {
 			g.Add(&gen.TypeDef{Kind: gen.KObject, Name: "X", Interfaces: []string{"I"}, Fields: []*gen.FieldDef{gen.F("x:String"), gen.F("xe(v:XE=Q):XE")}})
 		case "Y":
 			g.Add(&gen.TypeDef{Kind: gen.KObject, Name: "Y", Interfaces: []string{"I", "J"}, Fields: []*gen.FieldDef{gen.F("x:String"), gen.F("y:String")}})
+		case "UZ":
+			g.Add(&gen.TypeDef{Kind: gen.KObject, Name: "Z3", Interfaces: []string{"J"}, Fields: []*gen.FieldDef{gen.F("y:String")}})
+			g.Add(&gen.TypeDef{Kind: gen.KUnion, Name: "UZ", Members: []string{"Z3", "O"}})
+		case "W":
+			g.Add(&gen.TypeDef{Kind: gen.KObject, Name: "W2", Interfaces: []string{"I"}, Fields: []*gen.FieldDef{gen.F("x:String")}})
+			g.Add(&gen.TypeDef{Kind: gen.KObject, Name: "W", Fields: []*gen.FieldDef{gen.F("w2:W2")}})
 		case "Z":
 			g.Add(&gen.TypeDef{Kind: gen.KObject, Name: "Z2", Interfaces: []string{"J"}, Fields: []*gen.FieldDef{gen.F("y:String")}})
 			g.Add(&gen.TypeDef{Kind: gen.KObject, Name: "Z", Interfaces: []string{"I"}, Fields: []*gen.FieldDef{gen.F("x:String"), gen.F("z2:Z2")}})
@@ -167,6 +181,12 @@ func construct(v *variant) (*graphql.Schema, error) {
 		}
 		if n == "Z" {
 			late["Z2"] = true
+		}
+		if n == "UZ" {
+			late["Z3"] = true
+		}
+		if n == "W" {
+			late["W2"] = true
 		}
 	}
 	var early []string
